@@ -2292,6 +2292,10 @@ def parse_item(line_tokens):
     # packs
     elif head == 'pack':
         _, fmt, *imm = tokens
+        try:
+            struct.calcsize(fmt)
+        except (struct.error, UnicodeError) as e:
+            raise AssemblerError('invalid pack format "{}": {}'.format(fmt, e), line)
         imm = parse_immediate(imm, line)
         return Pack(line, fmt, imm)
     # shorthand packs
